@@ -532,6 +532,7 @@ def wellFormed : Obj → Bool
   | .asyncGen init reads => subset reads init
   | .constInit inReprSet => inReprSet
   | .fmtErr i => !feRaises i
+  | .badHeld _ viaDump => viaDump     -- str / repr of an object holding a value whose own repr raises (open finding)
   | _ => true
 
 /-- totality, BY CONSTRUCTION OF THE MODEL (`render` is a total function whose only failing branches are the ones
@@ -553,6 +554,7 @@ theorem C18_repr_raises_iff (o : Obj) (op : Op) : (render o op).isOk = wellForme
       | (simp [render, fmtOf, pct, Res.isOk, wellFormed]; done)
       | (rcases p with (_ | _ | n) | _ <;> simp [render, fmtOf, pct, Res.isOk, wellFormed])
   | fmtErr i => cases op <;> (simp only [render, wellFormed]; cases feRaises i <;> simp [Res.isOk])
+  | badHeld k d => cases op <;> cases d <;> simp [render, Res.isOk, wellFormed]
   | _ => cases op <;> simp [render, Res.isOk, wellFormed]
 
 /-- the totality observer accepts the model's answer for every well-formed object inside the statement - and for every
@@ -919,5 +921,89 @@ example :
        .result (some (11, [.caller, .task 101, .task 0, .task 1], [.caller, .task 101, .task 0, .task 1],
          [.task 101, .task 0, .task 1]))] := by
   decide
+
+/-! ## audit 3: two behaviours of the code that the property text does not allow (open findings) -/
+
+/-- **A5, counterexample in the model of the code as it is**: `str` / `repr` of a future, a failed future, a computed
+    task, a scoped value, its override contexts and `generator.Value` holding a value whose own `__repr__` raises DO
+    raise (the object is inside the statement: "never raise in any state"); the observer names it with the recorded
+    signature, and only str / repr - `dump()` of the same object returns and would keep the ordinary name -/
+theorem C18_repr_badheld_counterexample :
+    (∀ k : BadHolder, ∀ op : Op, render (.badHeld k false) op = .raised .other ∧ inStatement (.badHeld k false) = true ∧
+      (render (.badHeld k true) op).isOk = true) ∧
+    reprClause "badHeld" "repr" (.badHeld .future false) (render (.badHeld .future false) .repr) = "held-value-repr-raises" ∧
+    reprClause "badHeld" "dump" (.badHeld .future true) (.raised .other) = "raises:badHeld.dump" := by
+  refine ⟨fun k op => ?_, by decide, by decide⟩
+  cases k <;> cases op <;> decide
+
+/-- the recorded name is given to nothing else: a `held-value-repr-raises` verdict means the object is one that holds
+    a value whose repr raises, the operation is str / repr, and the operation raised -/
+theorem C18_badheld_signature_exact (kind opName : String) (o : Obj) (r : Res)
+    (h : reprClause kind opName o r = "held-value-repr-raises") :
+    (∃ k, o = .badHeld k false) ∧ r.isOk = false := by
+  unfold reprClause at h
+  split at h
+  · exact absurd h (by decide)
+  · split at h
+    · exact absurd h (by decide)
+    · split at h
+      · exact ⟨⟨_, rfl⟩, rfl⟩
+      · exfalso
+        simp only at h
+        split at h
+        · exact absurd h (by decide)
+        · rename_i hne
+          exact hne (by simp [h])
+
+/-- the witness chain of A2: level 0 awaits level 1 inside `try: .. except E: pass` (swallow), level 1 raises -/
+def rejectWitness : List Level := [⟨.yld, .swallow, none, false⟩, ⟨.yld, .pass, some 0, false⟩]
+
+/-- **A2, counterexample in the model of the code as it is**: for an exception class that rejects attribute assignment
+    the awaiter's handler never runs and the caller catches the assignment's error (token 997) instead of getting the
+    value - the reference (and the model for every ordinary class) says: level 0 reports from its handler and the call
+    returns.  The observer rejects the run with the recorded signature. -/
+theorem C18_reject_counterexample :
+    rejectDomain .none rejectWitness = true ∧
+    refTop .none rejectWitness =
+      [.stack .start 0 [0], .stack .start 1 [0, 1], .stack .handler 0 [0], .result none] ∧
+    runTopC .accepts .own .none rejectWitness = refTop .none rejectWitness ∧
+    runTopC .rejects .own .none rejectWitness =
+      [.stack .start 0 [0], .stack .start 1 [0, 1], .result (some (rejectTok, [.caller], [.caller], []))] ∧
+    glueSpec .none rejectWitness (runTopC .rejects .own .none rejectWitness) = false ∧
+    rejectClause .none rejectWitness (runTopC .rejects .own .none rejectWitness) =
+      "exception-rejecting-attributes-not-delivered" := by
+  decide
+
+/-- the glue statement with the exception class made explicit: for every class that ACCEPTS attribute assignment the
+    whole observation is the reference one (hypothesis needed: `C18_reject_counterexample`) -/
+theorem C18_glue_refines_class_partial (cls : ExcClass) (rule : FrameRule) (bottom : Bottom) (levels : List Level)
+    (hcls : cls = .accepts) (hsafe : rule = .own ∨ stackSafe bottom 0 levels = true) :
+    runTopC cls rule bottom levels = refTop bottom levels := by
+  subst hcls
+  exact C18_glue_refines_partial rule bottom levels hsafe
+
+/-- the recorded name is given only to the observation the model of the code predicts, and only when that
+    observation is not the reference one -/
+theorem C18_reject_signature_exact (bottom : Bottom) (levels : List Level) (events : List Event)
+    (h : rejectClause bottom levels events = "exception-rejecting-attributes-not-delivered") :
+    events = rejectTop bottom levels ∧ events ≠ refTop bottom levels := by
+  unfold rejectClause at h
+  split at h
+  · exact absurd h (by decide)
+  · rename_i hc
+    split at h
+    · rename_i he
+      exact ⟨by simpa using he, fun heq => hc (by simp [heq])⟩
+    · exfalso
+      simp only at h
+      split at h
+      · exact absurd h (by decide)
+      · rename_i hne
+        exact hne (by simp [h])
+
+/-- a chain of rejecting exceptions in which no exception ever leaves a generator (everything is swallowed at the
+    innermost level, or nothing is raised) behaves like every other chain -/
+example : rejectTop .errFuture [⟨.yld, .pass, none, true⟩, ⟨.yld, .swallow, none, false⟩] =
+    refTop .errFuture [⟨.yld, .pass, none, true⟩, ⟨.yld, .swallow, none, false⟩] := by decide
 
 end AsynqModel.Debug
